@@ -380,6 +380,7 @@ def shrink(recipe, fails, budget=400):
 #   ("getslice", index, a)         a[index]  (ints / slices; index stored as ("i", k) | ("s", a, b, c))
 #   ("getitem", a, idx)            a[idx] with an integer-valued funsor idx
 #   ("independent", fn, rv, bv, dv) Independent(fn, rv, bv, dv)
+#   ("matmul", a, b)               ops.matmul(a, b) on the output axes
 #   ("unaryf", f, a)               ops.<f>(a) for a transcendental f (exp log sigmoid sqrt tanh …): uninterpreted in Lean
 #   ("getsugar", a, items)         a[items]: `:` / Ellipsis / int / name / funsor items (getitem at any offset)
 # Kinds: "real", "bool", ("array", shape), or an int (Bint size).
@@ -457,6 +458,7 @@ _EXT_BUILD = {
     "getsugar": lambda r: build(r[1])[_sugar_index(r[2])],
     "unaryf": lambda r: getattr(ops, r[1])(build(r[2])),
     "nreduce": lambda r: _b_nreduce(r),
+    "matmul": lambda r: ops.matmul(build(r[1]), build(r[2])),
 }
 
 
@@ -484,6 +486,7 @@ _EXT_PY = {
     "independent": lambda r: f"Independent({python_of(r[1])}, {r[2]!r}, {r[3]!r}, {r[4]!r})",
     "getsugar": lambda r: f"({python_of(r[1])})[{_py_sugar_index(r[2])}]",
     "unaryf": lambda r: f"ops.{r[1]}({python_of(r[2])})",
+    "matmul": lambda r: f"ops.matmul({python_of(r[1])}, {python_of(r[2])})",
     "nreduce": lambda r: (f"(lambda x_: x_.reduce(ops.{r[1]}, frozenset([Variable(n, x_.inputs[n]) for n in {list(r[3])!r}] + "
                           f"[Variable(n, Bint[s]) for n, s in {[tuple(p) for p in r[4]]!r}])))({python_of(r[2])})"),
 }
@@ -504,6 +507,7 @@ _EXT_CHILDREN = {
     "independent": lambda r: [((1,), r[1], "other")],
     "unaryf": lambda r: [((2,), r[2], "other")],
     "nreduce": lambda r: [((2,), r[2], "other")],
+    "matmul": lambda r: [((1,), r[1], "other"), ((2,), r[2], "other")],
     "getsugar": lambda r: [((1,), r[1], "other")] + [((2, i, 1), it[1], "int") for i, it in enumerate(r[2]) if it[0] == "r"],
 }
 
